@@ -75,6 +75,15 @@ Params == {<<-1, 1>>, <<0, 1>>, <<2, 1>>, <<1, 2>>, <<1, 0>>}        \* includes
 LinePairs(d) == IF d = 2 THEN {<< <<1,0,1>>, <<0,1,1>> >>, << <<0,0,1>>, <<1,1,0>> >>, << <<1,1,1>>, <<1,-1,0>> >>}
                 ELSE {<< <<1,0,1,1>>, <<0,1,1,1>> >>, << <<0,0,0,1>>, <<1,0,1,0>> >>, << <<1,1,0,1>>, <<0,1,-1,1>> >>}
 
+\* pencils over the four points: vertices off the carrier line (a generic one, one at infinity, and the preimages of points at
+\* infinity whose coordinates all have one sign, so that the image pencil consists of parallel lines), and in space axes
+\* (pairs of vertices) skew to the carrier line
+VCand(d, M) == IF d = 2 THEN {<<2,3,1>>, <<1,-2,0>>, Primitive(MatVec(Adj(M), <<1,1,0>>)), Primitive(MatVec(Adj(M), <<0,-1,0>>))}
+               ELSE {<<2,3,-1,1>>, <<1,-2,1,0>>, Primitive(MatVec(Adj(M), <<1,1,1,0>>)), Primitive(MatVec(Adj(M), <<-1,0,-2,0>>)), Primitive(MatVec(Adj(M), <<0,1,0,0>>))}
+PencilVertices(d, a, b, M) == IF d = 2 THEN {v \in VCand(d, M) : Det3(<<a, b, v>>) # 0}
+                              ELSE {v \in VCand(d, M) : ~IsZeroV(Join3PPP(a, b, v))}
+PencilAxes(d, a, b, M) == IF d = 2 THEN {} ELSE {vw \in VCand(d, M) \X VCand(d, M) : Det4(<<a, b, vw[1], vw[2]>>) # 0 /\ vw[1][1] <= vw[2][1]}
+
 \* polytopes (homogeneous integer vertices, in order)
 Polytopes2 == { Obj("segment", << <<0,0,1>>, <<2,1,1>> >>), Obj("segment", << <<1,1,1>>, <<1,0,0>> >>),
                 Obj("polygon", << <<0,0,1>>, <<2,0,1>>, <<0,2,1>> >>),
@@ -133,7 +142,7 @@ Compute ==
              LET a == ab[1] b == ab[2] IN
              /\ Cardinality({x1, x2, x3, x4}) = 4
              /\ res' = [t |-> "cr", d |-> d, pts |-> <<PtAt(a, b, x1), PtAt(a, b, x2), PtAt(a, b, x3), PtAt(a, b, x4)>>,
-                        M |-> M, cr |-> CRParams(x1, x2, x3, x4)]
+                        M |-> M, cr |-> CRParams(x1, x2, x3, x4), vx |-> PencilVertices(d, a, b, M), axes |-> PencilAxes(d, a, b, M)]
      \/ /\ task = "poly"        \* a transformed polytope has the images of the original vertices, in order
         /\ LET d == cfgn[1] IN
            \E i \in DOMAIN PoolOf(d), x \in (IF d = 2 THEN Polytopes2 ELSE Polytopes3) :
@@ -167,6 +176,18 @@ CRInvariant == (Done /\ res.t = "cr") =>
                      k[2] <= Len(q[1]) /\ (\E ii, jj \in 1..4 : q[ii][k[1]] * q[jj][k[2]] - q[ii][k[2]] * q[jj][k[1]] # 0)
        B(i, j) == LET k == m(i, j) IN q[i][k[1]] * q[j][k[2]] - q[i][k[2]] * q[j][k[1]]
    IN B(1, 3) * B(2, 4) * res.cr[2] = B(1, 4) * B(2, 3) * res.cr[1]
+
+\* the pencil of lines (planes) joining a vertex (an axis) with the four points has their cross ratio, before and after the map:
+\* in brackets [v, p_i, p_j] (plane) and [v, w, p_i, p_j] (space)
+PencilCRInvariant == (Done /\ res.t = "cr") =>
+   LET im(x) == Primitive(ActPoint(res.M, x))
+       ok2(v, q) == Det3(<<v, q[1], q[3]>>) * Det3(<<v, q[2], q[4]>>) * res.cr[2] = Det3(<<v, q[1], q[4]>>) * Det3(<<v, q[2], q[3]>>) * res.cr[1]
+       ok3(v, w, q) == Det4(<<v, w, q[1], q[3]>>) * Det4(<<v, w, q[2], q[4]>>) * res.cr[2]
+                         = Det4(<<v, w, q[1], q[4]>>) * Det4(<<v, w, q[2], q[3]>>) * res.cr[1]
+       qi == [i \in 1..4 |-> im(res.pts[i])]
+   IN /\ \A v \in res.vx : res.d = 2 => (ok2(v, res.pts) /\ ok2(im(v), qi) /\ Det3(<<im(v), qi[1], qi[2]>>) # 0)
+      /\ \A vw \in res.axes : ok3(vw[1], vw[2], res.pts) /\ ok3(im(vw[1]), im(vw[2]), qi) /\ Det4(<<im(vw[1]), im(vw[2]), qi[1], qi[2]>>) # 0
+      /\ res.vx # {} /\ (res.d = 3 => res.axes # {})
 
 \* vertex i of the image is the image of vertex i (the definition, vertex by vertex)
 VerticesInOrder == (Done /\ res.t = "poly" /\ res.x.k \in {"segment", "polygon"}) =>
